@@ -4,7 +4,7 @@ CONSTANTS
   MaxLen = 4
   Widths = {1,2,3,4}
   Slides = {1,2,3}
-  NeModes = {TRUE, FALSE}
+  Strategies <- StratDefault
   FixEvict = TRUE
 INVARIANTS Emit
 CHECK_DEADLOCK FALSE
